@@ -384,6 +384,16 @@ LIST_BATCH = 16
 # is INCONCLUSIVE.  fmt:enumerated is floored at its exact size (146 values x 5 ways).  No floor on a NEW counter whose
 # minimum measured was below 60 (a few way x class cells in the quick tier), none on fmt:unsplittable (0 on the
 # unchanged tree) and none on the recorded:* counters (what the library logs / warns is its business).
+# Round-9 extension (non-normalised Unicode / odd continuation markers): ALL floors regenerated the same way (quick: min
+# over VERIF_SEED 0-3, thorough: seed 0; 50% rounded down to two digits) after DOCS quick went from 9600 to 9000 (pays
+# for 640 Unicode documents x 5 input forms, 674 enumerated + 720 seeded raw-text documents, 1600 Unicode lists, 6000
+# Unicode codec lists, 2000 Unicode licences).  New: monitors M.allforms(-value), M.raw(-value); counters uni:documents,
+# uni:first-input:<form>, feat:uni-<class> / feat:marker-<class> (fed by the Unicode documents only), raw:via:*,
+# raw:parsed-from:<form> and raw:dump-reparsed-from:<form> for all ten forms, raw:uni-<class>, raw:marker-<class>,
+# raw:marker-in-<field>, raw:license-raw-*, lists:unicode:<field>, lists:uni-<class>, codec:uni-<class>, lic:uni-<class>:
+# a run that never exercises the class is INCONCLUSIVE.  raw:enumerated(:atom/:marker) is floored at its exact size.  No
+# floor on a new counter whose minimum measured was below 60 (uni:first-input:<one of the four old forms> in the quick
+# tier), none on the raw:recorded:* / raw:dump-equals-the-parsed-text counters (counted, not judged).
 FLOORS = {
     'quick': {'nontrivial': 61000,
         'monitors': {'K.codec': 190000, 'M.allforms': 1200, 'M.allforms-value': 21000, 'M.codec': 68000,
@@ -535,30 +545,32 @@ FLOORS = {
                      'perm-input:noends': 950, 'perm-input:stringio': 950, 'perm:all-licenses-before-all-files': 880,
                      'perm:files-after-license': 2600, 'perm:files-reordered-among-themselves': 2200,
                      'perm:license-before-first-files': 1700, 'perm:license-between-files': 1300,
-                     'perm:licenses-reordered-among-themselves': 1500, 'raw:dump-reparsed-from:binary-file': 61,
-                     'raw:dump-reparsed-from:bytes': 75, 'raw:dump-reparsed-from:bytes-doc': 71,
-                     'raw:dump-reparsed-from:bytes-noends': 63, 'raw:dump-reparsed-from:bytesio': 71,
-                     'raw:dump-reparsed-from:keepends': 58, 'raw:dump-reparsed-from:noends': 58,
-                     'raw:dump-reparsed-from:str-doc': 72, 'raw:dump-reparsed-from:stringio': 59,
-                     'raw:dump-reparsed-from:text-file': 71, 'raw:enumerated': 674, 'raw:enumerated:atom': 524,
+                     'perm:licenses-reordered-among-themselves': 1500, 'raw:dump-reparsed-from:binary-file': 59,
+                     'raw:dump-reparsed-from:bytes': 73, 'raw:dump-reparsed-from:bytes-doc': 69,
+                     'raw:dump-reparsed-from:bytes-noends': 69, 'raw:dump-reparsed-from:bytesio': 64,
+                     'raw:dump-reparsed-from:keepends': 64, 'raw:dump-reparsed-from:noends': 64,
+                     'raw:dump-reparsed-from:str-doc': 73, 'raw:dump-reparsed-from:stringio': 53,
+                     'raw:dump-reparsed-from:text-file': 70, 'raw:enumerated': 674, 'raw:enumerated:atom': 524,
                      'raw:enumerated:marker': 150, 'raw:license-raw-decodable': 580,
-                     'raw:license-raw-tab-or-other-marker': 330, 'raw:marker-blank+tab': 500,
-                     'raw:marker-blanks>=2': 540, 'raw:marker-blanks>=4': 550,
-                     'raw:marker-dot-after-odd-marker': 510, 'raw:marker-in-comment': 540,
+                     'raw:license-raw-tab-or-other-marker': 340, 'raw:marker-blank+tab': 500,
+                     'raw:marker-blanks>=2': 540, 'raw:marker-blanks>=4': 540,
+                     'raw:marker-dot-after-odd-marker': 520, 'raw:marker-in-comment': 540,
                      'raw:marker-in-copyright': 580, 'raw:marker-in-disclaimer': 330, 'raw:marker-in-files': 160,
                      'raw:marker-in-license': 640, 'raw:marker-in-source': 200,
                      'raw:marker-in-upstream-contact': 130, 'raw:marker-in-x-note': 130,
                      'raw:marker-in-x-origin': 170, 'raw:marker-mixed-blanks-and-tabs': 600,
-                     'raw:marker-on-last-line': 690, 'raw:marker-one-tab': 280, 'raw:marker-tab+blank': 440,
+                     'raw:marker-on-last-line': 690, 'raw:marker-one-tab': 290, 'raw:marker-tab+blank': 440,
                      'raw:marker-tabs>=2': 280, 'raw:marker-with-empty-first-line': 540,
                      'raw:marker-with-inner-tab': 310, 'raw:marker-with-trailing-blank-or-tab': 680,
-                     'raw:parsed-from:bytes': 50, 'raw:parsed-from:bytes-doc': 52, 'raw:parsed-from:bytesio': 51,
-                     'raw:parsed-from:noends': 52, 'raw:parsed-from:text-file': 54, 'raw:uni-astral': 330,
-                     'raw:uni-casefold-differs-from-lower': 470, 'raw:uni-cjk-compatibility': 360,
-                     'raw:uni-combining-mark': 550, 'raw:uni-hangul-jamo': 360, 'raw:uni-inner-unicode-blank': 360,
+                     'raw:parsed-from:binary-file': 35, 'raw:parsed-from:bytes': 33, 'raw:parsed-from:bytes-doc': 35,
+                     'raw:parsed-from:bytes-noends': 33, 'raw:parsed-from:bytesio': 34,
+                     'raw:parsed-from:keepends': 33, 'raw:parsed-from:noends': 35, 'raw:parsed-from:str-doc': 36,
+                     'raw:parsed-from:stringio': 35, 'raw:parsed-from:text-file': 37, 'raw:uni-astral': 340,
+                     'raw:uni-casefold-differs-from-lower': 470, 'raw:uni-cjk-compatibility': 370,
+                     'raw:uni-combining-mark': 550, 'raw:uni-hangul-jamo': 370, 'raw:uni-inner-unicode-blank': 360,
                      'raw:uni-invisible': 390, 'raw:uni-ligature-fullwidth-superscript': 440,
                      'raw:uni-nfkc-differs': 650, 'raw:uni-not-nfc': 650, 'raw:uni-not-nfd': 640,
-                     'raw:uni-singleton': 460, 'raw:uni-utf8-byte-0x85': 460, 'raw:uni-utf8-byte-0xa0': 440,
+                     'raw:uni-singleton': 460, 'raw:uni-utf8-byte-0x85': 470, 'raw:uni-utf8-byte-0xa0': 440,
                      'raw:via:data': 310, 'raw:via:text': 370, 'uni:documents': 320,
                      'uni:first-input:binary-file': 37, 'uni:first-input:bytes-doc': 36,
                      'uni:first-input:bytes-noends': 44, 'uni:first-input:bytesio': 36,
